@@ -81,7 +81,7 @@ static int decode_filename(const char *filename, size_t line_no, char *buffer)
 		}
 
 		if (*src != '\0')
-			return -1;
+			goto fail_trailing;
 
 		*dst = '\0';
 	}
@@ -89,6 +89,10 @@ static int decode_filename(const char *filename, size_t line_no, char *buffer)
 	if (canonicalize_name(buffer))
 		goto fail_canon;
 	return 0;
+fail_trailing:
+	fprintf(stderr, "%s: " PRI_SZ ": Unexpected characters after "
+		"quoted filename.\n", filename, line_no);
+	return -1;
 fail_canon:
 	fprintf(stderr, "%s: " PRI_SZ ": Malformed filename.\n",
 		filename, line_no);
